@@ -41,6 +41,7 @@ const (
 	v6Unfold
 	v6Emit
 	v6Throttling
+	v6EmitTry // Emit over a Try function failing on an uninterpreted set of indices
 )
 
 func VLife() {
@@ -63,7 +64,23 @@ func VLife() {
 		}
 		return vF(x), nil
 	}
+	// bounded liveness of the generator under Try: once the context is cancelled
+	// and both consumers have stopped for good, every further application either
+	// parks a value/error in a buffer or ends the stage, so there are at most
+	// cap(out)+cap(errors)+1 of them (a generator that keeps applying its function
+	// after cancel without ever looking at the context exceeds any bound)
+	stop1, stopE, after := false, false, 0
 	switch st {
+	case v6EmitTry:
+		hasInput = false
+		o1, oe = Emit(ctx, capc, time.Duration(5), Try(func(i int) (int, error) {
+			after += vrt.B2I(vrt.All(vrt.Closed(ctx.Done()), stop1, stopE))
+			vrt.Assert("cancel=>bounded-applications", after <= 2*vrt.Param("cap", 0)+1)
+			if v6E(i) {
+				return 0, v6err{i}
+			}
+			return vF(i), nil
+		}))
 	case v6Map:
 		o1, oe = Map(ctx, in, Pure(vF))
 	case v6FMap:
@@ -138,6 +155,7 @@ func VLife() {
 		vrt.Go("consumer1", func() {
 			for {
 				if vrt.Flip("consumer1-stops") {
+					stop1 = true
 					return
 				}
 				vrt.Pace("consumer1")
@@ -202,6 +220,7 @@ func VLife() {
 		vrt.Go("consumerE", func() {
 			for {
 				if vrt.Flip("consumerE-stops") {
+					stopE = true
 					return
 				}
 				vrt.Pace("consumerE")
@@ -210,7 +229,9 @@ func VLife() {
 					de = true
 					return
 				}
-				vrt.Assert("errors.prefix", vnthErr(&xs, n, &accBad, &posBad, ge, err))
+				if st != v6EmitTry {
+					vrt.Assert("errors.prefix", vnthErr(&xs, n, &accBad, &posBad, ge, err))
+				}
 				ge++
 			}
 		})
